@@ -168,7 +168,7 @@ def run_shard(spec, rng, ctx):
     end = C.budget(spec)
     i = 0
     try:
-        while i < spec["max_instances"] and time.time() < end:
+        while i < spec["max_instances"] and C.now() < end:
             if i % (4 if spec.get("tier") == "thorough" else 10) == 3:
                 k = rng.choice([2, 3, 3, 4])
                 run_manysmall(k, [rng.randint(0 if rng.random() < 0.1 else 1, rng.choice([4, 9, 15])) for _ in range(rng.randint(11, 13))], rng, ctx)
